@@ -37,6 +37,9 @@ struct Controller {
     uint64_t horizon = T0 + 5000000;             // beyond this, a pending deadline no longer keeps the case alive
     std::map<long, Action> schedule;             // step -> action
     long handoffs = 0, preemptions = 0, busy_handoffs = 0, clock_jumps = 0, idles = 0;
+    long lonely_spins = 0;
+    long since_handoff = 0;                      // schedule points taken by the running participant since it got the token
+    std::function<std::string()> on_deadlock;    // optional: extra state for the deadlock report
     std::function<void()> on_quiescence;         // called (token held) when nobody can run any more within the horizon
     Outcome out;                                 // labels collected so far; violation() finishes the case
     bool tracing = false;
@@ -67,9 +70,11 @@ struct Controller {
         handoffs++;
         trace("handoff", me, nx);
         cur = nx;
+        since_handoff = 0;
         sem_post(&p[nx].sem);
         while (sem_wait(&p[me].sem) < 0) {}
         cur = me;
+        since_handoff = 0;
     }
     // nobody is runnable: let virtual time pass.  Returns the participant to run, or -1 at quiescence.
     int advance(int me) {
@@ -99,6 +104,9 @@ struct Controller {
         auto it = schedule.find(step);
         const Action* act = it == schedule.end() ? nullptr : &it->second;
         if (act && act->type == 1) { vnow += (uint64_t)act->arg; clock_jumps++; trace("adv", act->arg); }
+        // A retry loop without a pause instruction (e.g. MPMC pop waiting for a ticket holder to publish) only
+        // passes ordinary schedule points; after many of them in a row treat it as the busy-wait it is.
+        if (++since_handoff > 300 && kind != PHOTON_VERIF_SP_BUSYWAIT && next_runnable(me) >= 0) kind = PHOTON_VERIF_SP_BUSYWAIT;
         if (kind == PHOTON_VERIF_SP_BUSYWAIT) {
             int nx = next_runnable(me);
             if (nx < 0) {
@@ -107,7 +115,15 @@ struct Controller {
                     // a participant spins while nobody else can ever run again
                     bool any_idle = false;
                     for (auto& q : p) if (q.state == P_IDLE) any_idle = true;
-                    if (!any_idle) violation("deadlock: a participant busy-waits while every other participant is finished");
+                    if (!any_idle) {
+                        // spinning alone: legal for a few rounds (e.g. a loop that re-reads a flag the last
+                        // finished participant has just set); a deadlock only if it never ends
+                        if (++lonely_spins < 3000) return;
+                        std::string st;
+                        for (auto& q : p) st += std::to_string(q.state);
+                        if (on_deadlock) st += " " + on_deadlock();
+                        violation("deadlock: participant " + std::to_string(me) + " busy-waits forever while every other participant is finished (states " + st + ", 0=run 2=done)");
+                    }
                     quiescence();
                 }
             }
